@@ -172,9 +172,10 @@ class C13(Prop):
     budget = {'quick': 30, 'thorough': 600}
 
     def gen(self, rng, tier, seed):
-        cfg = gen.gen_base_cfg(rng, seed, kinds=('obedient', 'selfexit'),
-                               grace=[0, 0.05, 0.25], warmup=[0, 0, 0.05],
-                               singleton_p=0.05)
+        cfg = gen.gen_base_cfg(rng, seed, kinds=('obedient', 'selfexit',
+                                                 'slow', 'stubborn'),
+                               grace=[0, 0.05, 0.25, 1.0],
+                               warmup=[0, 0, 0.05], singleton_p=0.05)
         depth = 4 if tier == 'quick' else 6
         for i, wc in enumerate(cfg['watchers']):
             o = wc['opts']
@@ -206,7 +207,8 @@ class C13(Prop):
                 o['working_dir'] = rng.choice(['/', '/tmp', '/var/tmp'])
         n = rng.choice([1, 2, 4, 6]) if tier == 'quick' else \
             rng.choice([3, 6, 10, 20])
-        ops = gen.gen_history(rng, cfg, n, self.REQS, None, quiet_p=0.6)
+        ops = gen.gen_history(rng, cfg, n, self.REQS, None, quiet_p=0.6,
+                              second_req_kinds=['incr', 'kill', 'reload'])
         return {'cfg': cfg, 'ops': ops}
 
     def run(self, case):
